@@ -509,6 +509,51 @@ func runC11Isolation(c C11Case, o *run.Obs, w *core.World, roots []*core.SavedRo
 		}
 		return fmt.Errorf("[%s] env=isolation: trees A and B opened from the same root over one healthy store and one shared cache; %s; tree B (live context, never faulted) did not behave as it would alone: %w", c.Cfg, how, errB)
 	}
+	// second phase, sequential: a request of tree A2 fails on its own; only afterwards a tree B2 sharing the (cold)
+	// cache needs the same nodes. What A2's failure left behind must not reach B2.
+	hs2 := &holdStore{inner: inner, arrived: make(chan struct{}), release: make(chan struct{}), failOne: hs.failOne}
+	cache2 := mast.NewNodeCache(256)
+	a2, err := w.Load(r, hs2, cache2, false)
+	if err != nil {
+		o.Label("aborted:base-failure")
+		return nil
+	}
+	hs2.mu.Lock()
+	hs2.armed = true
+	hs2.mu.Unlock()
+	ctxA2, cancelA2 := context.WithCancel(context.Background())
+	defer cancelA2()
+	doneA2 := make(chan error, 1)
+	go func() {
+		doneA2 <- core.Safely("Iter", func() error {
+			return a2.M.Iter(ctxA2, func(k, v interface{}) error { return nil })
+		})
+	}()
+	select {
+	case <-hs2.arrived:
+		if hs2.failOne {
+			close(hs2.release)
+		} else {
+			cancelA2()
+		}
+		<-doneA2
+		if !hs2.failOne {
+			close(hs2.release)
+		}
+		b2, err := w.Load(r, hs2, cache2, false)
+		if err == nil {
+			err = w.Check(b2)
+		}
+		if err != nil {
+			how := "a read of tree A ended with A's own cancellation"
+			if hs2.failOne {
+				how = "one read of tree A ended with an error on that request only"
+			}
+			return fmt.Errorf("[%s] env=isolation (sequential): %s; afterwards tree B, opened from the same root over the same healthy store and shared cache, did not behave as it would alone: %w", c.Cfg, how, err)
+		}
+		o.Label("isolation:sequential-phase")
+	case <-doneA2:
+	}
 	o.NonTrivial = true
 	o.Label("env=isolation")
 	if hs.failOne {
